@@ -169,6 +169,20 @@ CHECKS = {
           "MusicXML fixtures, hostile classes (under-full measures, unequal chords inside a voice).",
   "note": "Trusted: vmon/refmodels/musicxml_reader.py, timemaps.py, lxml. Open known findings: Words not written, under-full measure shrinks, voice reassignment on intra-voice overlap, zero-length wedge, <print> gained by scores without page/system objects.",
  },
+ "C08": {
+  "technique": "post-condition hooks on save_match / load_match / load_matchfile; independent regex reader of the written text; reference v1.0.0 writer; exact beat and tick models",
+  "text": "A hook on save_match reads the written text with an independent reader, loads the file with the real load_match and "
+          "compares alignment (labels and ids), performance (pitch, velocity, ticks, seconds, pedals, clock units/rate) and score "
+          "(onset and duration in beats, spelling, ids, voices, staves, articulations, measures, signatures at their bar) with what "
+          "was saved. Hooks on load_matchfile/load_match check line conservation: every kept note line is one alignment entry, one "
+          "performed note and one score note; duplicate ids are resolved as documented. Workload: generated single-divisions scores "
+          "(pickups, meter changes between quarter and non-quarter meters, ties, graces, chords, voices, staves, key changes) with "
+          "performed parts aligned by shuffled partial alignments mixing all four labels, ppq/mpq pairs, pedal streams, every "
+          "argument form, assume_unfolded on/off; files written by a reference writer (reader alone); files corrupted with "
+          "duplicate ids; the fixture match files loaded, saved and loaded again.",
+  "note": "Trusted: vmon/refmodels/c08_match.py, gen_score. Don't-care: pickup bars opening with a rest, measures after the last sounding note, "
+          "two key signatures in one bar, exactly repeated pedal events, the base of bar numbering. 16 defects repaired in /repo (known_findings.json).",
+ },
  "C18": {
   "technique": "post-condition hooks on to_matched_score / get_matched_notes / get_time_maps_from_alignment / encode_performance / decode_performance; round-trip judge with one common shift",
   "text": "Hooks on the codec entry points check that the matched-note table pairs exactly the alignment's matches present on both "
